@@ -94,9 +94,9 @@ def table_present(p):
     return True
 
 
-def run_config(ctx, rep, cfg, F):
+def run_config(ctx, rep, cfg, F, walkers=None, ctors=None, extras=True, floor=90):
     n = 0
-    for short, fmt in WALKERS.items():
+    for short, fmt in (walkers if walkers is not None else WALKERS).items():
         if short not in F.short:
             rep.bad("R03.1", short, "missing", "%s not found" % short, kind="unrecognised", config=cfg)
             continue
@@ -166,7 +166,7 @@ def run_config(ctx, rep, cfg, F):
                     rep.ok("R03.1", short, "push=%d %s" % (len(want_push), "emit" if val == "S" else "skip"),
                            sample={"inputs": ins, "pushes": pushes, "result": got} if len(want_push) == 2 and val == "S" else None)
     # ---- constructors
-    for short, start in CTORS.items():
+    for short, start in (ctors if ctors is not None else CTORS).items():
         if short not in F.short:
             rep.bad("R03.6", short, "missing", "%s not found" % short, kind="unrecognised", config=cfg)
             continue
@@ -192,6 +192,9 @@ def run_config(ctx, rep, cfg, F):
                 rep.bad("R03.6", short, "start", "%s must start the walker at %s on the map's table; it starts at %s on %s" % (short, want, items, tbl), config=cfg)
             else:
                 rep.ok("R03.6", short, "start " + start, sample={"result": repr(p.result[1])} if start == "loc" else None)
+    if not extras:
+        rep.floor("iterator step / constructor paths (%s)" % cfg, n, floor)
+        return
     # ---- clones are derived (copy table reference + stack)
     derived = {i["path"]: i for i in F.impls if i.get("trait") == "std::clone::Clone"}
     for short in CLONES:
